@@ -5,6 +5,8 @@ package spec
 type C09Case struct {
 	Kind  string   `json:"kind"`  // mux | grpc | grpcmux
 	Steps []string `json:"steps"` // e.g. "dial-noaccept:host"
+	// CloseRace (gRPC kinds): the final close races with eight goroutines announcing listeners on both sides
+	CloseRace bool `json:"closeRace,omitempty"`
 }
 
 type C09Step struct {
@@ -26,7 +28,10 @@ type C09Fresh struct {
 }
 
 type C09End struct {
-	ClosedOK bool `json:"closedOk"`
+	ClosedOK   bool   `json:"closedOk"`
+	CloseRaced bool   `json:"closeRaced,omitempty"`
+	StormStuck int    `json:"stormStuck,omitempty"` // announcing goroutines that had not returned 20 s after the close
+	StormDump  string `json:"stormDump,omitempty"`
 }
 
 // C09Leak is emitted once per host child (case -1) after every pair was closed.
